@@ -2,7 +2,8 @@
 ubootsim) and the REAL `Bash`/`Ash.exec` (on real bash / dash) attach the command's log event as a
 stream; what ends up in that event must be exactly the output the command returned.
 case:  exec-log uboot <prompt> <chunk> <cuts> <cmd>*      cmd = <word,…>/<out>/<status>
-       exec-log bash|ash <chunk> <cmd>*                    cmd = <out>/<status>
+       exec-log bash|ash <chunk> <cmd>*                    cmd = <out>/<status> | r | rc   (r/rc: an interactive
+                                                            run("true") / run("cat") … terminate0() in between)
 obs:   one token per command  <returned text>/<logged text>   (or err:<tag>)"""
 import tbot
 import tbot.log_event
@@ -69,6 +70,20 @@ def _run_shell(kind, toks):
     out = []
     try:
         for tok in toks[1:]:
+            if tok in ("r", "rc"):
+                # an interactive command in between (run() borrows the channel, the proxy attaches the event as a
+                # stream with the prompt suppressed): it contributes no pair, but nothing it held back may turn up in
+                # the log of the NEXT command
+                if tok == "r":
+                    with m.run("true") as c:
+                        c.terminate0()
+                else:
+                    with m.run("cat") as c:
+                        c.sendline("x", read_back=True)
+                        c.read_until_timeout(0.05)
+                        c.sendcontrol("D")
+                        c.terminate0()
+                continue
             o, st = tok.split("/")
             cid = shellimpl.new_id()
             open(os.path.join(d, f"out.{cid}"), "wb").write(unhx(o))
@@ -117,4 +132,6 @@ def gen(rng, params):
         return " ".join(["exec-log", "uboot", hx(prompt), str(chunk), cuts] + cmds)
     kind = rng.choice(["bash", "ash"])
     cmds = ["/".join([hx(out()), str(rng.choice([0, 0, 3]))]) for _ in range(rng.randint(2, 4))]
+    if rng.random() < 0.6:
+        cmds.insert(rng.randint(0, len(cmds) - 1), rng.choice(["r", "rc"]))
     return " ".join(["exec-log", kind, str(rng.choice([1, 64, params["readChunkSize"]]))] + cmds)
